@@ -7,6 +7,7 @@
 //   drv_sched --child ...        one execution under the scheduler (choice prefix or forced op order)
 //   drv_sched --ref ...          one thread body alone in a fresh process (the sequential oracle)
 //   drv_sched --free ...         the same bodies free-running (no scheduler) for the TSan pass
+//   drv_sched --orders file      batch replay of forced operation orders (binding of models/tables_init.pml)
 #include "ada.h"
 #include "common.hpp"
 #include "sched/sched.h"
@@ -261,6 +262,41 @@ static RunResult run_proc(const std::vector<std::string>& args, int timeout_ms) 
   return rr;
 }
 
+// ---------------------------------------------------------------- batch replay (Promela-model binding)
+// --orders <file>: used by bin/c13_model.py to force the model's schedules on the real code. Each line is
+//   "<harness> <case> <t0,t1,...>"   one forked child in order mode (thread id per atomic operation)
+//   "ref <harness> <case> <tid>"     the thread body alone in a fresh process (sequential oracle)
+// Output per line: "X <line#> <exit> <timed_out> <status> <diverged>", the child's A (atomic operations)
+// and R (per-thread results) lines, then "E <line#>". Children are forked from this process, which never
+// calls the library, so every child starts with the tables still packed.
+static int orders_main(const Args& A) {
+  std::string doc = read_file(A.get("orders"));
+  const int timeout_ms = int(A.geti("timeout_ms", 20000));
+  size_t i = 0; int ln = 0;
+  while (i < doc.size()) {
+    size_t j = doc.find('\n', i); if (j == std::string::npos) j = doc.size();
+    std::string l = doc.substr(i, j - i); i = j + 1;
+    if (l.empty()) continue;
+    char h[32], ord[4096]; int cs = 0, tid = 0;
+    std::vector<std::string> args;
+    if (sscanf(l.c_str(), "ref %31s %d %d", h, &cs, &tid) == 3)
+      args = {g_self, "--ref", "1", "--harness", h, "--case", std::to_string(cs), "--tid", std::to_string(tid)};
+    else if (sscanf(l.c_str(), "%31s %d %4095s", h, &cs, ord) == 3)
+      args = {g_self, "--child", "1", "--harness", h, "--case", std::to_string(cs), "--order", ord};
+    else { printf("X %d -2 0 0 0\nE %d\n", ln, ln); ln++; continue; }
+    RunResult rr = run_proc(args, timeout_ms);
+    if (rr.timed_out) rr = run_proc(args, timeout_ms * 10);
+    printf("X %d %d %d %d %d\n", ln, rr.exit_code, rr.timed_out ? 1 : 0, rr.status, rr.diverged);
+    for (auto& e : rr.events) printf("A %d %d %d %llu %d %d\n", e.tid, e.kind, e.addr, e.value, e.order, e.ok);
+    for (size_t t = 0; t < rr.results.size(); t++) printf("R %zu %s\n", t, rr.results[t].c_str());
+    if (rr.exit_code != 0 && !rr.raw_err.empty()) printf("T %s\n", hex(rr.raw_err.substr(0, 300)).c_str());
+    printf("E %d\n", ln);
+    ln++;
+  }
+  fflush(stdout);
+  return 0;
+}
+
 static Reporter R;
 
 int main(int argc, char** argv) {
@@ -271,6 +307,7 @@ int main(int argc, char** argv) {
   if (A.kv.count("child")) return child_main(A);
   if (A.kv.count("ref")) return ref_main(A);
   if (A.kv.count("free")) return free_main(A);
+  if (A.kv.count("orders")) return orders_main(A);
 
   const bool T = !A.quick();
   const int bound = int(A.geti("bound", T ? -1 : 2));     // -1: no preemption bound (all interleavings)
